@@ -392,6 +392,11 @@ def replay_file(path):
     if json.load(open(path))['instance'].startswith('handshake'):
         from . import c01
         return common.generic_replay_file(path, lambda: handshake_instances('thorough') + handshake_instances('quick'), lambda: c01._load(False))
+    if json.load(open(path))['instance'].startswith(('sequence:', 'MODP primes')):
+        def _ld():
+            global MODS
+            MODS = common.load_repo(shim=False)
+        return common.generic_replay_file(path, lambda: build_instances('thorough') + build_instances('quick'), _ld)
     MODS = common.load_repo(shim=False)
     import hmac
     m, c, ik = MODS['message'], MODS['crypto'], MODS['ikesa']
@@ -400,7 +405,7 @@ def replay_file(path):
     T = m.Transform
     kv = dict(x.split('=') for x in name.split() if '=' in x)
     kv.setdefault('keylen', '256')
-    h, pk = PRFS[int(kv['prf'])]
+    h, pk = PRFS[int(kv['prf'])] if 'prf' in kv else (None, None)
     hx = lambda k: bytes.fromhex(inp[k])
 
     def P(k, d): return hmac.new(k, d, h).digest()
@@ -435,10 +440,17 @@ def replay_file(path):
                     break
         elif len(d1.shared_secret) != klen:
             bad.append(f'shared secret has {len(d1.shared_secret)} octets, expected {klen}')
+        if g in RFC5903:
+            # the public value is a point of the curve RFC 5903 assigns to the group (checked with the library's own named curve)
+            from cryptography.hazmat.primitives.asymmetric import ec as _ec
+            ref = {'secp256r1': _ec.SECP256R1, 'secp384r1': _ec.SECP384R1, 'secp521r1': _ec.SECP521R1}[RFC5903[g][0]]()
+            x, y = int.from_bytes(d1.public_key[:klen], 'big'), int.from_bytes(d1.public_key[klen:], 'big')
+            try:
+                _ec.EllipticCurvePublicNumbers(x, y, ref).public_key()
+            except ValueError:
+                bad.append(f'the public value of group {g} is not a point of {RFC5903[g][0]} (RFC 5903)')
         print('native:', bad or 'no deviation')
         return 1 if bad else 0
-    if name.startswith('MODP primes'):
-        return 1
     if name.startswith('prfplus'):
         got = c.Prf(T(2, int(kv['prf']))).prfplus(hx('key'), hx('seed'), int(kv['size']))
         return 0 if got == PP(hx('key'), hx('seed'), int(kv['size'])) else 1
